@@ -181,6 +181,9 @@ class Interp(object):
 
     def cond(self, test, env):
         """`i < len(subject)` (either orientation / polarity) -> True when it means 'position present'"""
+        if isinstance(test, ast.UnaryOp) and isinstance(test.op, ast.Not):
+            c = self.cond(test.operand, env)
+            return None if c is None else (not c)
         if isinstance(test, ast.Compare) and len(test.ops) == 1:
             l, r, op = test.left, test.comparators[0], test.ops[0]
 
